@@ -1,7 +1,7 @@
 (* C03 -- proofs.  The central result is [check_sound]: the certificate check performed by
    [explore] makes the computed list an inductive invariant, so a predicate that holds on the
    list holds in every state reachable by an execution of ANY length. *)
-From Coq Require Import List Bool PArith FSets.FSetPositive Lia.
+From Coq Require Import List Bool PArith ZArith FSets.FSetPositive Lia.
 From C03 Require Import Model.
 Import ListNotations.
 
@@ -312,6 +312,41 @@ Proof. apply dtor_join_thread, c_dj_thread. Qed.
 Lemma dtor_safe_all : forall s, reachable (THREAD, Repaired) s -> dtor_ret s = true ->
   active s = false /\ lp s = LDone.
 Proof. apply dtor_safe_thread, c_ds_thread. Qed.
+
+(* ------------------------------------------------------------------ launch-method resolution *)
+Lemma resolve_thread : forall n, resolve MThread n = THREAD.
+Proof. reflexivity. Qed.
+Lemma resolve_task : forall n, resolve MTask n = TASK.
+Proof. reflexivity. Qed.
+Lemma resolve_auto : forall n, resolve MAuto n = if (4 <? n)%Z then TASK else THREAD.
+Proof. reflexivity. Qed.
+Lemma resolve_auto_thread_iff : forall n, resolve MAuto n = THREAD <-> (n <= 4)%Z.
+Proof.
+  intro n. unfold resolve. destruct (4 <? n)%Z eqn:E.
+  - apply Z.ltb_lt in E. split; [discriminate | lia].
+  - apply Z.ltb_ge in E. split; [intros _; exact E | reflexivity].
+Qed.
+Lemma resolve_owns_thread_iff : forall m n,
+  resolve m n = THREAD <-> (m = MThread \/ (m = MAuto /\ (n <= 4)%Z)).
+Proof.
+  intros m n. destruct m.
+  - rewrite resolve_auto_thread_iff. split; [intro H; right; auto | intros [H | [_ H]]; [discriminate | exact H]].
+  - split; [intros _; left; reflexivity | reflexivity].
+  - cbn. split; [discriminate | intros [H | [H _]]; discriminate].
+Qed.
+
+(* dtor-safety for the object as constructed: whenever the resolution gives a thread-owning loop *)
+Lemma dtor_safe_resolved : forall m n s,
+  resolve m n = THREAD -> reachable (resolve m n, Repaired) s -> dtor_ret s = true ->
+  active s = false /\ lp s = LDone.
+Proof. intros m n s E. rewrite E. apply dtor_safe_all. Qed.
+Lemma dtor_join_resolved : forall m n s,
+  resolve m n = THREAD -> reachable (resolve m n, Repaired) s -> cp s = DNot ->
+  loop_reaches Repaired is_done K_dtor s.
+Proof. intros m n s E. rewrite E. apply dtor_join_all. Qed.
+Lemma dtor_safe_explicit_thread : forall n s,
+  reachable (resolve MThread n, Repaired) s -> dtor_ret s = true -> active s = false /\ lp s = LDone.
+Proof. intros n s. apply dtor_safe_resolved. reflexivity. Qed.
 
 (* the code as found: stop-safety is false, for both launch methods *)
 Lemma stop_unsafe_original : forall l, exists s,
